@@ -58,6 +58,8 @@ pub(super) fn get_highest_index(file_spec: &FileSpec) -> Option<u32> {
             &name[1..]
         };
 
+        // the stem of a compressed file still contains the original suffix
+        let infix = infix.split('.').next().unwrap_or(infix);
         let idx: u32 = infix.parse().unwrap_or(0);
         o_highest_idx = match o_highest_idx {
             None => Some(idx),
